@@ -80,9 +80,7 @@ func H_C05_strings() {
 	t := ts[vChoice("stype", len(ts))]
 	rr, w, _ := vBuildRRWith("r.", t, func(g *vGen) {
 		switch t { // types with one or two strings afford one octet more per string
-		case TypeHINFO, TypeX25, TypeURI, TypeCAA, TypeUINFO:
-			g.maxStr++
-		case TypeISDN:
+		case TypeX25, TypeURI, TypeCAA:
 			g.maxStr++
 		}
 	})
